@@ -88,8 +88,17 @@ fn run_query(s: &mut String, qi: usize, d: &Ddnnf, vals: &[i64], a: &[i32], k: u
 }
 
 fn pick_k(rng: &mut Rng, count: usize) -> usize {
-    // k in 1..=count+1 (count = models under the assumptions; 0 when unsatisfiable)
+    // k in 1..=count+1 (count = models under the assumptions; 0 when unsatisfiable).
+    // Above 299 models k stays below 300 (the list-based heap of the extracted model is quadratic in k).
     let top = count + 1;
+    if top > 300 {
+        return match rng.below(4) {
+            0 => 1,
+            1 => 2,
+            2 => 1 + rng.below(64) as usize,
+            _ => 65 + rng.below(235) as usize,
+        };
+    }
     match rng.below(6) {
         0 => 1,
         1 => top,
@@ -158,7 +167,7 @@ pub fn run(kind: &str, ctx: &Ctx, out: &mut dyn Write) {
         ctx2.count = ctx.count / 4;
     }
     let srcs = sources(&ctx2, &mut rng);
-    let stride = if kind == "c20wide" { 5 } else if ctx.tier == "thorough" { 4 } else { 1 };
+    let stride = if kind == "c20wide" { 5 } else { 1 };
     let mut k_id = 0;
     let mut hist_k = [0usize; 4]; // k=1, 1<k<count, k=count, k=count+1
     let mut unsat = 0usize;
